@@ -42,7 +42,10 @@ impl SyntaxParserTrait for AssignmentParser {
                             break;
                         }
                     }
-                    _ => variable_name.push_str(&token.to_string().to_lowercase()[..])
+                    _ => {
+                        variable_name.push(' ');
+                        variable_name.push_str(&token.to_string().to_lowercase()[..])
+                    }
                 };
             }
 
